@@ -83,6 +83,15 @@ func decodeRelease(data string) (*rspb.Release, error) {
 	if err := json.Unmarshal(b, &rls); err != nil {
 		return nil, err
 	}
+	// A null entry in the list of hooks cannot be run and would be dereferenced by
+	// every operation that goes through the hooks of the release: drop it.
+	hooks := rls.Hooks[:0]
+	for _, h := range rls.Hooks {
+		if h != nil {
+			hooks = append(hooks, h)
+		}
+	}
+	rls.Hooks = hooks
 	return &rls, nil
 }
 
